@@ -473,6 +473,16 @@ func init() {
 						if of := c.P.Fn(parts[0]); of != nil && of != bs.Fn && c.P.OwnedBy(bs.Fn, map[*ssa.Function]bool{of: true}) {
 							k, want, ok = tk, terminationTable[tk], true
 						}
+						// a reviewed goroutine closure "F$n" that became a named method still started (only) by F
+						if i := strings.Index(parts[0], "$"); i > 0 && c.P.Fn(parts[0]) == nil {
+							if outer := c.P.Fn(parts[0][:i]); outer != nil {
+								for _, gt := range goTargetsIn(outer) {
+									if gt == bs.Fn && len(c.P.CallSitesOf(bs.Fn)) == 1 {
+										k, want, ok = tk, terminationTable[tk], true
+									}
+								}
+							}
+						}
 					}
 				}
 				key := ks.key("block:" + k)
